@@ -16,10 +16,12 @@
    Cli.cmd_extract_linear / cmd_extract_listed are the same commands with the archive read
    first and no pool; they say nothing about the file system when the reading fails half-way.
    Definitions only; proofs in CliExtractProofs.v. *)
+From MLA Require Import Limit.
 From MLA Require Import Base Stream Blocks Writer Reader RoundTripWriter RoundTripReader CompLayer EncLayer Format Ecies Archive Path Tar Cli Pool.
 Open Scope N_scope.
 
 Section Delivered.
+  Context {LIM : Limit}.
   Variable FNMAX : N.
   Variables TS TC TA TE : N.
   Variable S : Stream.
@@ -140,6 +142,7 @@ End Delivered.
 
 Section CliExtract.
   Variables CHUNK TAG BLOCK LIMIT FNMAX : N.
+  Local Hint Extern 0 Limit => exact LIMIT : typeclass_instances.
   Variables TS TC TA TE : N.
   Variable dh : bytes -> bytes -> bytes.
   Variable kdf : bytes -> bytes.
